@@ -1365,6 +1365,9 @@ fn main() {
     if thorough { for civ in 0..=2u8 { for limit in 0..civ { vconfigs.push((civ, limit, ProxyMode::AnswerLower)) } } }
     let mut roots: Vec<Cfg> = Vec::new();
     for &(style, cap, ord) in &styles { for &(civ, limit, mode) in &vconfigs {
+        // the answer-lower proxy is explored with 2 retained diffs (both styles); the
+        // 3-diff space, the largest, keeps to the error-reply proxy
+        if cap == 3 && mode == ProxyMode::AnswerLower { continue }
         let orders: Vec<Order> = match ord {
             Some(off) if civ.min(limit) < 2 => vec![ORDERS[((civ + 2 * limit + off) % 3) as usize]],
             _ => ORDERS.to_vec(),
